@@ -412,3 +412,89 @@ pub fn cmp_2limb_frac() {
     vcover!();
     std::mem::forget((x, y));
 }
+
+// ===========================================================================
+// C09 - Num::from_string (the reader a level-2 compiled program uses to restore its stacks).
+// Text SHAPE concrete per harness ([-]digits[/digits]), VALUES symbolic: under Kani the text is
+// a placeholder of that shape ("-12/34") and BigNum::from_string is replaced by a contract model
+// that maps the digit run "12" to the symbolic value A and "34" to B (its contract - value of
+// the text, ParseError otherwise - is decided by from_base_*); natively the text is the real
+// decimal rendering of A and B and the real reader runs.  Decides the glue of from_string: sign
+// detection and stripping, split at '/', which part goes where, reduction, sign re-applied.
+// Asserted (exactly what the round trip of a canonical rendering needs, nothing more): value
+// equality by cross-multiplication, positive denominator, sign on the numerator, and no growth
+// (rd <= B, ru <= A) - together these force r == A/B structurally whenever gcd(A,B) = 1.
+// ===========================================================================
+static mut FS_A: (bool, u32) = (true, 0);
+static mut FS_B: (bool, u32) = (true, 0);
+static mut FS_BAD: bool = false;
+static mut FS_CALLS: u32 = 0;
+fn m_bn_from_string(s: String) -> Result<BigNum, crate::number::big_number::Error> {
+    unsafe {
+        FS_CALLS += 1;
+        let neg = s.as_bytes().len() > 0 && s.as_bytes()[0] == b'-';
+        let body = if neg { &s.as_bytes()[1..] } else { s.as_bytes() };
+        let r = if body.len() == 2 && body[0] == b'1' && body[1] == b'2' {
+            bn1(!neg || FS_A.1 == 0, FS_A.1)
+        } else if body.len() == 2 && body[0] == b'3' && body[1] == b'4' {
+            bn1(!neg || FS_B.1 == 0, FS_B.1)
+        } else {
+            FS_BAD = true;
+            bn1(true, 0)
+        };
+        std::mem::forget(s);
+        Ok(r)
+    }
+}
+macro_rules! num_from_string {
+    ($name:ident, $neg:expr, $frac:expr, $txt:expr) => {
+        #[cfg_attr(kani, kani::proof)]
+        #[cfg_attr(kani, kani::stub(BigNum::from_string, m_bn_from_string))]
+        #[cfg_attr(kani, kani::stub(BigNum::div, m_div))]
+        #[cfg_attr(kani, kani::stub(BigNum::gcd, m_gcd_contract))]
+        pub fn $name() {
+            let (a, b) = (any_u16() as u32, any_u16() as u32);
+            let neg: bool = $neg;
+            let frac: bool = $frac;
+            assume(b != 0);
+            assume(!neg || a != 0); // "-0" is never rendered
+            unsafe {
+                FS_A = (true, a);
+                FS_B = (true, b);
+            }
+            #[cfg(kani)]
+            let text = String::from($txt);
+            #[cfg(not(kani))]
+            let text = if frac { format!("{}{}/{}", if neg { "-" } else { "" }, a, b) } else { format!("{}{}", if neg { "-" } else { "" }, a) };
+            let b = if frac { b } else { 1 };
+            let r = Num::from_string(text);
+            unsafe {
+                assert!(!FS_BAD, "a text other than the digit runs of the two parts was handed to BigNum::from_string");
+            }
+            assert!(r.up.verif_limbs().len() == 1 && r.down.verif_limbs().len() == 1);
+            let (ru, rd) = (r.up.verif_limbs()[0], r.down.verif_limbs()[0]);
+            assert!(r.down.verif_pos() && rd != 0 && rd <= b && ru <= a);
+            assert!((ru as u64) * (b as u64) == (a as u64) * (rd as u64));
+            assert!(r.up.verif_pos() == !neg);
+            vcover!();
+            std::mem::forget(r);
+        }
+    };
+}
+// @h prop=C09 unwind=10 timeout=2400 mem=12 tier=thorough kind=stretch replay=optional stubs=BigNum::from_string->contract_model(value_of_the_digit_run),BigNum::div->one-limb_model,BigNum::gcd->contract_model what=Num::from_string("-A/B"):16-bit_A,B:value,sign,positive_denominator,no_growth
+num_from_string!(num_from_string_neg_frac, true, true, "-12/34");
+// @h prop=C09 unwind=10 timeout=2400 mem=12 tier=thorough kind=stretch replay=optional stubs=BigNum::from_string->contract_model(value_of_the_digit_run),BigNum::div->one-limb_model,BigNum::gcd->contract_model what=Num::from_string("A/B")
+num_from_string!(num_from_string_pos_frac, false, true, "12/34");
+// @h prop=C09 unwind=10 timeout=2400 mem=12 replay=optional stubs=BigNum::from_string->contract_model(value_of_the_digit_run),BigNum::div->one-limb_model,BigNum::gcd->contract_model what=Num::from_string("-A")
+num_from_string!(num_from_string_neg_int, true, false, "-12");
+// @h prop=C09 unwind=10 timeout=2400 mem=12 replay=optional stubs=BigNum::from_string->contract_model(value_of_the_digit_run),BigNum::div->one-limb_model,BigNum::gcd->contract_model what=Num::from_string("A")
+num_from_string!(num_from_string_pos_int, false, false, "12");
+
+// @h prop=C09 unwind=20 timeout=2400 mem=12 what=Num::from_string(NaN_text)_is_NaN,structurally_Num::nan()
+#[cfg_attr(kani, kani::proof)]
+pub fn num_from_string_nan() {
+    let r = Num::from_string(String::from("너무 커엇..."));
+    assert!(r.is_nan() && r == Num::nan());
+    vcover!();
+    std::mem::forget(r);
+}
